@@ -533,6 +533,18 @@ func CorpusHistories(scratch string, names map[string]bool) ([]*History, []strin
 			}
 			return nil
 		}, func(g *Genesis) { easyParams(g); g.Params.SignedBlocksWindow, g.Params.MinSignedBlocks = 10, 8 }},
+		// a miss exactly at the first height of the signing window counts (the window is inclusive), also when
+		// an older miss outside the window is still on record: window 4, at least 2 signed; heights 1, 6, 9 and
+		// 10 are missed, so at block 11 the window [6,10] holds 3 misses and the validator is stopped
+		{"downtime-miss-at-window-start", 3, 2, 14, func(s *Sim, h int64) []*TxSpec {
+			switch h {
+			case 3:
+				return []*TxSpec{s.TxStake(s.User(0), s.Val(0).Addr, 3)}
+			case 2, 7, 10, 11: // the votes of block h are about block h-1
+				s.scriptMiss = [][]byte{s.Val(0).Addr}
+			}
+			return nil
+		}, func(g *Genesis) { easyParams(g); g.Params.SignedBlocksWindow, g.Params.MinSignedBlocks = 4, 2 }},
 		// several unbonding stakes mature in one block: several removals in one ledger commit
 		{"many-refunds-in-one-block", 2, 3, 8, func(s *Sim, h int64) []*TxSpec {
 			switch h {
